@@ -19,7 +19,7 @@ RULE = ("heartbeat streams of 1-40 heartbeats with strictly increasing timestamp
         "heartbeats whose end ties with the previous event's end) × pulsetimes {0, fractional, large}, fed through "
         "get(limit=1) -> heartbeat_merge -> replace_last | insert on each backend, in a store that also holds 1-2 "
         "other buckets (created before and after) whose events start and end at the stream's own instants, some of them "
-        "written while the stream is being fed; some streams keep one activity alive for more than a day (merged duration > 24 h); in a quarter of the cases the "
+        "written while the stream is being fed; now and then a bucket-management call that the store refuses (delete / update of a missing bucket, create of an existing one) between two heartbeats; some streams keep one activity alive for more than a day (merged duration > 24 h); in a quarter of the cases the "
         "bucket is deleted and re-created mid-stream and the stream carries on; after EVERY "
         "heartbeat the bucket is compared with heartbeat_reduce(prefix) (real transform and integer reference) and "
         "the other buckets with their initial dump; evaluations = heartbeats; non-trivial = stream has a merge and a "
@@ -107,7 +107,10 @@ def gen_case(rng, ctx):
             if rng.random() < 0.7:
                 s_["zone"] = zone
     recreate_at = rng.randrange(1, n) if n > 1 and rng.random() < 0.25 else None
-    return dict(backend=backend, stream=stream, pulse_us=pu, others=others, recreate_at=recreate_at)
+    # bucket-management calls that the store refuses, issued between two heartbeats (after the write, before the next read)
+    faults = {str(rng.randrange(0, n)): rng.choice(["delete_missing_bucket", "create_existing", "update_missing_bucket"])
+              for _ in range(rng.choice([0, 0, 1, 2]))}
+    return dict(backend=backend, stream=stream, pulse_us=pu, others=others, recreate_at=recreate_at, faults=faults)
 
 
 def _t(e):
@@ -155,6 +158,18 @@ def run_case(case, ctx):
                 decisions += "i"
                 ctx.count("inserts")
             ctx.count(f"heartbeats.{backend}")
+            fault = (case.get("faults") or {}).get(str(k))
+            if fault:
+                try:
+                    if fault == "delete_missing_bucket":
+                        ds.delete_bucket("no-such-bucket")
+                    elif fault == "update_missing_bucket":
+                        ds.update_bucket("no-such-bucket", name="x")
+                    elif backend != "memory":      # (the memory store does not refuse it: outside every statement, not issued)
+                        ds.create_bucket("hb", type="t", client="c", hostname="h")
+                except Exception:  # noqa: BLE001 - refused, in whatever way
+                    pass
+                ctx.count("refused_bucket_operations_between_heartbeats")
             got = Counter(t[1:] for t in (obs(e) for e in b.get(-1)))
             want_ref = ref_reduce(tuples[first:k + 1], pu)
             want_real = [_t(e) for e in hbm.heartbeat_reduce(copy.deepcopy(stream[first:k + 1]), p)]
